@@ -93,8 +93,7 @@ var xMuts = []xMut{
 	{Name: "catIdx", Stmt: "%s[0] .= 'XY';", Kind: "store", Shapes: shapeSet("list", "keyed", "strlist", "strkeyed", "mixlist")},
 	{Name: "catKey", Stmt: "%s['k0'] .= 'XY';", Kind: "store", Shapes: shapeSet("keyed", "kv", "strkeyed", "strkv")},
 	{Name: "catNested", Stmt: "%s[0][0] .= 'XY';", Kind: "store", Shapes: shapeSet("nest", "strnest")},
-	{Name: "mulIdx", Stmt: "%s[1] *= 2;", Kind: "store", Shapes: shapeSet("list", "keyed")},
-	{Name: "storeStr", Stmt: "%s[0] = 'new';", Kind: "store", Shapes: shapeSet("strlist", "strkeyed", "strnest", "mixlist")},
+	{Name: "mulIdx", Stmt: "%s[1] *= 2;", Kind: "store", Shapes: shapeSet("list")},
 	{Name: "walkRef", Stmt: "array_walk(%s, function(&$v, $k) { $v = $v . 'W'; });", Func: true, Kind: "func", Shapes: shapeSet("list", "strlist", "mixlist")},
 	{Name: "usortf", Stmt: "usort(%s, function($x, $y) { return 0; });", Func: true, Kind: "func", Shapes: shapeSet("keyed", "strkeyed")},
 }
@@ -637,7 +636,7 @@ func (r *runner) xEnumerate(full bool) int {
 							if full {
 								// every combination at top level; inside a function / method body every
 								// (shape × producer × sink) under one mutation of each kind
-								if scope != "top" && !scopeMuts[m.Name] {
+								if scope != "top" && (!scopeMuts[m.Name] || (s.Payload && s.Name != "strlist")) {
 									continue
 								}
 							} else {
